@@ -1,1 +1,301 @@
-//! ref_lz (to be filled)
+//! Reference LZ10 / LZ11 token-level decoder-validator and encoder, written from the
+//! format description (DESIGN Appendix A / GBATEK), independent of mila and nintendo-lz.
+
+#[derive(Clone, Copy, Debug, PartialEq, Eq)]
+pub enum Kind {
+    Lz10,
+    Lz11,
+}
+
+#[derive(Clone, Copy, Debug, PartialEq, Eq, Hash)]
+pub enum Token {
+    Lit(u8),
+    /// copy `len` bytes starting `disp` bytes back (disp ≥ 1); may overlap (len > disp)
+    Ref { len: usize, disp: usize },
+}
+
+#[derive(Debug, Clone)]
+pub struct Decoded {
+    pub data: Vec<u8>,
+    pub tokens: Vec<Token>,
+    pub declared_len: usize,
+    /// bytes of the stream consumed by header + tokens
+    pub consumed: usize,
+    /// number of tokens in the last flag group (1..=8; 0 when there is no group)
+    pub last_group_tokens: usize,
+}
+
+#[derive(Debug, Clone, PartialEq, Eq)]
+pub enum LzError {
+    TooShort,
+    BadType(u8),
+    Truncated { at: usize },
+    RefBeforeStart { produced: usize, disp: usize },
+    BadRefLength { len: usize },
+    Overshoot { declared: usize, produced: usize },
+    Leftover { consumed: usize, total: usize },
+}
+
+impl LzError {
+    pub fn class(&self) -> &'static str {
+        match self {
+            LzError::TooShort => "too-short",
+            LzError::BadType(_) => "bad-type",
+            LzError::Truncated { .. } => "truncated",
+            LzError::RefBeforeStart { .. } => "ref-before-start",
+            LzError::BadRefLength { .. } => "bad-ref-length",
+            LzError::Overshoot { .. } => "overshoot",
+            LzError::Leftover { .. } => "leftover",
+        }
+    }
+}
+
+/// Strictly validate and expand a bare LZ10 or LZ11 stream.
+/// `allow_leftover`: when true, trailing bytes after the last token are tolerated
+/// (used when judging *decoders*; compressor output must have none).
+pub fn decode(stream: &[u8], kind: Kind, allow_leftover: bool) -> Result<Decoded, LzError> {
+    if stream.len() < 4 {
+        return Err(LzError::TooShort);
+    }
+    let want = match kind {
+        Kind::Lz10 => 0x10,
+        Kind::Lz11 => 0x11,
+    };
+    if stream[0] != want {
+        return Err(LzError::BadType(stream[0]));
+    }
+    let mut declared = stream[1] as usize | (stream[2] as usize) << 8 | (stream[3] as usize) << 16;
+    let mut pos = 4usize;
+    if declared == 0 && kind == Kind::Lz11 {
+        if stream.len() < 8 {
+            return Err(LzError::Truncated { at: stream.len() });
+        }
+        declared = u32::from_le_bytes([stream[4], stream[5], stream[6], stream[7]]) as usize;
+        pos = 8;
+    }
+    let mut data: Vec<u8> = Vec::with_capacity(declared.min(1 << 24));
+    let mut tokens = Vec::new();
+    let mut last_group_tokens = 0usize;
+    let next = |pos: &mut usize| -> Result<u8, LzError> {
+        if *pos >= stream.len() {
+            return Err(LzError::Truncated { at: *pos });
+        }
+        let b = stream[*pos];
+        *pos += 1;
+        Ok(b)
+    };
+    while data.len() < declared {
+        let flags = next(&mut pos)?;
+        last_group_tokens = 0;
+        for bit in (0..8).rev() {
+            if data.len() >= declared {
+                break;
+            }
+            last_group_tokens += 1;
+            if (flags >> bit) & 1 == 0 {
+                let b = next(&mut pos)?;
+                data.push(b);
+                tokens.push(Token::Lit(b));
+            } else {
+                let b0 = next(&mut pos)? as usize;
+                let b1 = next(&mut pos)? as usize;
+                let (len, disp);
+                match kind {
+                    Kind::Lz10 => {
+                        len = (b0 >> 4) + 3;
+                        disp = (((b0 & 0xF) << 8) | b1) + 1;
+                    }
+                    Kind::Lz11 => {
+                        let n = b0 >> 4;
+                        if n >= 2 {
+                            len = n + 1;
+                            disp = (((b0 & 0xF) << 8) | b1) + 1;
+                        } else if n == 0 {
+                            let b2 = next(&mut pos)? as usize;
+                            len = (((b0 & 0xF) << 4) | (b1 >> 4)) + 0x11;
+                            disp = (((b1 & 0xF) << 8) | b2) + 1;
+                        } else {
+                            let b2 = next(&mut pos)? as usize;
+                            let b3 = next(&mut pos)? as usize;
+                            len = (((b0 & 0xF) << 12) | (b1 << 4) | (b2 >> 4)) + 0x111;
+                            disp = (((b2 & 0xF) << 8) | b3) + 1;
+                        }
+                    }
+                }
+                if disp > data.len() {
+                    return Err(LzError::RefBeforeStart { produced: data.len(), disp });
+                }
+                if len < 3 {
+                    return Err(LzError::BadRefLength { len });
+                }
+                if data.len() + len > declared {
+                    return Err(LzError::Overshoot { declared, produced: data.len() + len });
+                }
+                let start = data.len() - disp;
+                for i in 0..len {
+                    let v = data[start + i];
+                    data.push(v);
+                }
+                tokens.push(Token::Ref { len, disp });
+            }
+        }
+    }
+    if !allow_leftover && pos != stream.len() {
+        return Err(LzError::Leftover { consumed: pos, total: stream.len() });
+    }
+    Ok(Decoded { data, tokens, declared_len: declared, consumed: pos, last_group_tokens })
+}
+
+/// Expand a token sequence (panics if a reference reaches before the start — callers
+/// generate only valid sequences through `TokenGen`).
+pub fn expand(prefix: &[u8], tokens: &[Token]) -> Vec<u8> {
+    let mut data = prefix.to_vec();
+    for t in tokens {
+        match *t {
+            Token::Lit(b) => data.push(b),
+            Token::Ref { len, disp } => {
+                let start = data.len() - disp;
+                for i in 0..len {
+                    let v = data[start + i];
+                    data.push(v);
+                }
+            }
+        }
+    }
+    data
+}
+
+pub fn ref_len_range(kind: Kind) -> (usize, usize) {
+    match kind {
+        Kind::Lz10 => (3, 18),
+        Kind::Lz11 => (3, 0x111 + 0xFFFF),
+    }
+}
+
+/// LZ11 length form: 0 = one-nibble (3..=16), 1 = 17..=272 (3 bytes), 2 = 273..=65808 (4 bytes)
+pub fn lz11_form(len: usize) -> usize {
+    if len <= 16 {
+        0
+    } else if len <= 272 {
+        1
+    } else {
+        2
+    }
+}
+
+/// Encode a token sequence as a bare stream with the given declared length.
+/// `disp_raw_override`: if Some((token_index, raw_disp_minus_1_field)), that reference's
+/// 12-bit displacement field is replaced (used to plant references before the start).
+pub fn encode(tokens: &[Token], kind: Kind, declared: usize, disp_override: Option<(usize, usize)>) -> Vec<u8> {
+    let mut out = Vec::new();
+    out.push(match kind {
+        Kind::Lz10 => 0x10,
+        Kind::Lz11 => 0x11,
+    });
+    if declared < (1 << 24) && !(declared == 0 && kind == Kind::Lz11) {
+        out.push((declared & 0xFF) as u8);
+        out.push(((declared >> 8) & 0xFF) as u8);
+        out.push(((declared >> 16) & 0xFF) as u8);
+    } else {
+        out.extend_from_slice(&[0, 0, 0]);
+        out.extend_from_slice(&(declared as u32).to_le_bytes());
+    }
+    for (gi, group) in tokens.chunks(8).enumerate() {
+        let mut flags = 0u8;
+        let mut body = Vec::new();
+        for (i, t) in group.iter().enumerate() {
+            match *t {
+                Token::Lit(b) => body.push(b),
+                Token::Ref { len, disp } => {
+                    flags |= 1 << (7 - i);
+                    let mut d = disp - 1;
+                    if let Some((ti, raw)) = disp_override {
+                        if ti == gi * 8 + i {
+                            d = raw & 0xFFF;
+                        }
+                    }
+                    match kind {
+                        Kind::Lz10 => {
+                            assert!((3..=18).contains(&len));
+                            body.push((((len - 3) << 4) | (d >> 8)) as u8);
+                            body.push((d & 0xFF) as u8);
+                        }
+                        Kind::Lz11 => match lz11_form(len) {
+                            0 => {
+                                assert!(len >= 3);
+                                body.push((((len - 1) << 4) | (d >> 8)) as u8);
+                                body.push((d & 0xFF) as u8);
+                            }
+                            1 => {
+                                let l = len - 0x11;
+                                body.push((l >> 4) as u8);
+                                body.push((((l & 0xF) << 4) | (d >> 8)) as u8);
+                                body.push((d & 0xFF) as u8);
+                            }
+                            _ => {
+                                let l = len - 0x111;
+                                assert!(l <= 0xFFFF);
+                                body.push((0x10 | (l >> 12)) as u8);
+                                body.push(((l >> 4) & 0xFF) as u8);
+                                body.push((((l & 0xF) << 4) | (d >> 8)) as u8);
+                                body.push((d & 0xFF) as u8);
+                            }
+                        },
+                    }
+                }
+            }
+        }
+        out.push(flags);
+        out.extend(body);
+    }
+    out
+}
+
+/// header size of what the library's compressors emit
+pub fn header_len(kind: Kind, lz13_wrapper: bool) -> usize {
+    let _ = kind;
+    4 + if lz13_wrapper { 4 } else { 0 }
+}
+
+/// C10 expansion bound: header + n + ceil(n/8)
+pub fn expansion_bound(header: usize, n: usize) -> usize {
+    header + n + (n + 7) / 8
+}
+
+/// C10 effectiveness bound for an input of n bytes with period p (p ≤ 4096, n > p):
+/// header + (p+2) literals + r references of w bytes + one flag byte per eight tokens,
+/// r = ceil((n-p)/L)+1.
+pub fn periodic_bound(header: usize, n: usize, p: usize, w: usize, l: usize) -> usize {
+    let lits = p + 2;
+    let r = (n - p + l - 1) / l + 1;
+    let tokens = lits + r;
+    header + lits + r * w + (tokens + 7) / 8
+}
+
+#[cfg(test)]
+mod tests {
+    use super::*;
+    #[test]
+    fn roundtrip_tokens() {
+        for kind in [Kind::Lz10, Kind::Lz11] {
+            let toks = vec![
+                Token::Lit(1),
+                Token::Lit(2),
+                Token::Ref { len: 5, disp: 2 },
+                Token::Lit(9),
+                Token::Ref { len: 18, disp: 1 },
+            ];
+            let data = expand(&[], &toks);
+            let s = encode(&toks, kind, data.len(), None);
+            let d = decode(&s, kind, false).unwrap();
+            assert_eq!(d.data, data);
+            assert_eq!(d.tokens, toks);
+        }
+        let toks = vec![Token::Lit(7), Token::Ref { len: 300, disp: 1 }, Token::Ref { len: 17, disp: 301 }, Token::Ref { len: 272, disp: 5 }];
+        let data = expand(&[], &toks);
+        let s = encode(&toks, Kind::Lz11, data.len(), None);
+        let d = decode(&s, Kind::Lz11, false).unwrap();
+        assert_eq!(d.data, data);
+        assert_eq!(d.tokens, toks);
+    }
+}
